@@ -65,7 +65,3 @@ open MdIt.Nesting
 #print axioms trace_prefix_bounded
 #print axioms trace_of_run
 
-#check @gen_levelSites
-#print axioms gen_levelSites
-#check @gen_sites_raising
-#print axioms gen_sites_raising
